@@ -226,6 +226,50 @@ pub fn c06(ctx: &Ctx) {
     for r in table.iter().take(3) {
         ev::sample(r.clone());
     }
+    // the primaries stage must also run when the *transfer* is left Unspecified (documented: treated as sRGB),
+    // and an Unspecified primaries field means BT.709: bit-identical to the spelled-out request
+    {
+        let mut rng = Rng::new(ctx.seed, 0x0C06_5EC);
+        let px: Vec<[f32; 3]> = (0..61).map(|_| [rng.unit() as f32, rng.unit() as f32, rng.unit() as f32]).collect();
+        let n = px.len();
+        let mut cases = 0u64;
+        let same = |a: &[[f32; 3]], b: &[[f32; 3]]| a.len() == b.len() && a.iter().zip(b).all(|(x, y)| (0..3).all(|c| x[c].to_bits() == y[c].to_bits()));
+        for p in PRIMARIES.iter().copied().chain([CP::Unspecified]) {
+            for t in [TC::Unspecified, TC::Linear, TC::BT1886] {
+                if p != CP::Unspecified && t != TC::Unspecified {
+                    continue;
+                }
+                let (wt, wp) = (if t == TC::Unspecified { TC::SRGB } else { t }, if p == CP::Unspecified { CP::BT709 } else { p });
+                cases += 2;
+                let case = |dir: usize| J::obj().set("kind", "primaries-unspecified").set("primaries", format!("{p:?}")).set("transfer", format!("{t:?}")).set("dir", dir);
+                // towards the working space
+                let a = Rgb::new(px.clone(), n, 1, t, p).ok().and_then(|r| LinearRgb::try_from(r).ok());
+                let b = Rgb::new(px.clone(), n, 1, wt, wp).ok().and_then(|r| LinearRgb::try_from(r).ok());
+                match (a, b) {
+                    (Some(a), Some(b)) if same(a.data(), b.data()) => {}
+                    (a, b) => ev::violation(
+                        format!("C06|unspecified-field-skips-stage|{p:?}|dir=0"),
+                        format!("LinearRgb::try_from(Rgb tagged ({t:?}, {p:?})) differs from the same image tagged ({wt:?}, {wp:?}) (ok: {} / {})", a.is_some(), b.is_some()),
+                        case(0),
+                    ),
+                }
+                // away from it
+                let lin = LinearRgb::new(px.clone(), n, 1).unwrap();
+                let a = Rgb::try_from((lin.clone(), t, p)).ok();
+                let b = Rgb::try_from((lin, wt, wp)).ok();
+                match (a, b) {
+                    (Some(a), Some(b)) if same(a.data(), b.data()) && a.primaries() == wp && a.transfer() == wt => {}
+                    (a, b) => ev::violation(
+                        format!("C06|unspecified-field-skips-stage|{p:?}|dir=1"),
+                        format!("Rgb::try_from((LinearRgb, {t:?}, {p:?})) differs in samples or labels from the request ({wt:?}, {wp:?}) (labels {:?}; ok: {})", a.as_ref().map(|r| (r.transfer(), r.primaries())), b.is_some()),
+                        case(1),
+                    ),
+                }
+            }
+        }
+        ev::observe("unspecified_field_cases", cases);
+        evals.fetch_add(cases * n as u64, Relaxed);
+    }
     ev::observe("per_primaries_direction", J::Arr(table));
     ev::observe("identity_bit_inexact_pixels", id_inexact.load(Relaxed));
     ev::add_evals(evals.load(Relaxed));
